@@ -14,7 +14,7 @@ Decided by spec/Workload.tla:
 import json, os, concurrent.futures
 import common, graphs, sched
 
-PROPERTY_INVARIANTS = {"OrderOK", "NoSchedulerPanic", "NoUnable", "NoHang"}
+PROPERTY_INVARIANTS = {"OrderOK", "ReadsFromCanonical", "NoSchedulerPanic", "NoUnable", "NoHang"}
 
 
 def main(ctx):
@@ -171,6 +171,39 @@ def main(ctx):
             ev.sample({"kind": "slice", "source": rel, "target": name, "executing_jobs": real,
                        "distinct_states": r.distinct, "complete": r.complete}, limit=8)
     ev.extra["slices_complete"] = all_complete
+
+    # larger ancestor-closed slices under the lazy-send reduction (SpecLazy): breadth-first over the behaviours
+    # in which completion messages are delivered as late as possible
+    lazy_max = 18 if quick else 24
+    lz_jobs = []
+    for key in model_keys:
+        gj, gpath = graphs_by_src[key]
+        big = [s_ for s_ in graphs.slices(gj, lazy_max) if s_[1] > slice_max]
+        for n, (c, real, name) in enumerate(big[: (2 if quick else 5)]):
+            sp = ctx.path("lazy", "%s_%d.json" % ((key[0] + "".join("+" + f for f in key[1])).replace("/", "_"), n))
+            json.dump(graphs.slice_graph(gj, c), open(sp, "w"))
+            lz_jobs.append((key[0], name, real, sp))
+    lz_jobs.sort(key=lambda j: ("/minifonts/" not in j[0], -j[2]))
+    lz_jobs = lz_jobs[: (14 if quick else 80)]
+    common.log("lazy-send model checking of %d larger slices" % len(lz_jobs))
+
+    def lazy(job):
+        rel, name, real, sp = job
+        return job, common.run_tlc(ctx, "Workload", "MCWorkloadLazy.cfg", workers=4, timeout=600 if quick else 1800,
+                                   xmx="6g", env={"GRAPH": sp}, tag="lazy")
+
+    n_lazy_complete = 0
+    with concurrent.futures.ThreadPoolExecutor(3) as ex:
+        for job, r in ex.map(lazy, lz_jobs):
+            rel, name, real, sp = job
+            if r.timed_out:
+                continue
+            report_model(rel, "slice of %s, %d executing jobs, lazy-send reduction" % (name, real), r, sp)
+            n_lazy_complete += bool(r.complete)
+            ev.evaluations += 1
+            ev.sample({"kind": "lazy slice", "source": rel, "target": name, "executing_jobs": real,
+                       "distinct_states": r.distinct, "complete": r.complete}, limit=10)
+    ev.extra["lazy_slices"] = {"run": len(lz_jobs), "complete": n_lazy_complete}
 
     # simulation of whole graphs
     common.log("simulating %d whole graphs" % min(sim_sources, len(keys)))
